@@ -1,4 +1,5 @@
 import NixModel.Lemmas.StoreViews
+import NixModel.Lemmas.StoreWFC03
 
 /-!
 # C03 — names unique per parent, ids unique, all lookups agree
@@ -9,7 +10,7 @@ functions of one list — the creation-ordered links of the container's HDF5 gro
 (`contEntries`) — and the theorems say they denote exactly that list.
 -/
 namespace Nix.C03
-open Nix.Store Nix.Store.Lemmas
+open Nix.Store Nix.Store.Lemmas Nix.Store.Graph
 
 /-- `c[i]` for `0 ≤ i < len(c)` is the i-th entry in iteration (creation) order -/
 theorem index_nonneg (g : Graph) (c : Cont) (i : Nat) (h : i < contLen g c) :
@@ -54,6 +55,149 @@ theorem duplicate_refused_block (g : Graph) (name type : String) (hn : name ≠ 
   unfold createBlock
   simp [hn, hex]
 
+/-! ## Full-strength statements over reachable graphs
+
+`ReachableFresh g` = `g` is the state after some history of API calls from the empty file in which
+no call names its new entity with an id the (abstract, `uuid4`) supply has not handed out yet.
+Every such graph satisfies the invariant `WF` (`Lemmas/StoreWF.lean`): unique keys, link targets
+exist, link names unique per group, ids `id:n` with `n < nextId` and pairwise distinct, and
+container typing (entries of an owning container carry their link name as `name`, entries of link
+lists their link name as `entity_id`). -/
+
+/-- the invariant holds along every history -/
+theorem reachable_wf {g : Graph} (hg : ReachableFresh g) : WF g := hg.wf
+
+/-- and every API call keeps it (one lemma per `Op` constructor inside) -/
+theorem step_wf {g : Graph} (h : WF g) (op : Op) (hf : Op.Fresh g op) : WF (step g op) := h.step hf
+
+/-- **views agree** — for every owning container (blocks, groups, arrays, frames, tags,
+multi-tags, sources and sections at any depth, properties) of every reachable graph and every
+position `j`: positional indexing, the stored `name`, lookup by id, membership by id, lookup and
+membership by name and membership by entity all address the `j`-th entry of the creation-ordered
+link list. The hypotheses of `lookup_by_name` / `lookup_by_id` (names unique, the id is the
+first with that id, ids are UUIDs) are discharged by `WF`; what remains is the documented clash:
+the entry's *name* is the *id* of a sibling. -/
+theorem views_agree_reachable {g : Graph} (hg : ReachableFresh g) {p : Path} {cn : String} {c : Cont}
+    (hc : openCont g p cn = some c) (hpl : isPlainLike c.info.flavour = true)
+    (j : Nat) (hj : j < contLen g c) :
+    contGet g c (.pos j) = .ok ((contEntries g c)[j]'hj) ∧
+    g.getAttr ((contEntries g c)[j]'hj).2 "name" = some ((contEntries g c)[j]'hj).1 ∧
+    (∃ i, g.entityId ((contEntries g c)[j]'hj).2 = some i ∧ isUuid i = true ∧
+      contGet g c (.str i) = .ok ((contEntries g c)[j]'hj) ∧ contHas g c (.str i) = .ok true) ∧
+    ((isUuid ((contEntries g c)[j]'hj).1 = true →
+        ∀ l ∈ contEntries g c, g.entityId l.2 ≠ some ((contEntries g c)[j]'hj).1) →
+      contGet g c (.str ((contEntries g c)[j]'hj).1) = .ok ((contEntries g c)[j]'hj) ∧
+      contHas g c (.str ((contEntries g c)[j]'hj).1) = .ok true) ∧
+    contHas g c (.ent ((contEntries g c)[j]'hj).2) = .ok true :=
+  hg.wf.views_agree hc hpl j hj
+
+/-- names are unique within every container of a reachable graph -/
+theorem names_unique_reachable {g : Graph} (hg : ReachableFresh g) (c : Cont) :
+    ((contEntries g c).map (·.1)).Nodup := hg.wf.entries_nodup c
+
+/-- ids are pairwise distinct file-wide, and each is an id the supply handed out -/
+theorem ids_unique_reachable {g : Graph} (hg : ReachableFresh g) :
+    (∀ k k' i, g.entityId k = some i → g.entityId k' = some i → k = k') ∧
+    (∀ k i, g.entityId k = some i → ∃ n, n < g.nextId ∧ i = idStr n ∧ isUuid i = true) :=
+  ⟨hg.wf.ids_distinct, fun k i h => by
+    obtain ⟨n, hn, e⟩ := hg.wf.ids_wf k i h
+    exact ⟨n, hn, e, e ▸ isUuid_idStr n⟩⟩
+
+/-- **fresh ids** — the id the next create call will draw differs from every id in the file -/
+theorem id_fresh {g : Graph} (hg : ReachableFresh g) (k : Nat) : g.entityId k ≠ some (g.freshId).2 := by
+  intro e
+  obtain ⟨n, hn, e'⟩ := hg.wf.ids_wf k _ e
+  have := idStr_inj e'
+  omega
+
+/-- **order after delete** — `del c[key]` on a plain container (blocks, groups, arrays, frames,
+tags, multi-tags, properties; key = name, id or position) succeeds whenever `c[key]` does, and
+removes exactly the addressed entry: the others keep their relative order -/
+theorem order_after_delete {g : Graph} (hg : ReachableFresh g) {p : Path} {cn : String} {c : Cont}
+    (hc : openCont g p cn = some c) (hfl : c.info.flavour = .plain) {key : Key} {e : String × Nat}
+    (hget : contGet g c key = .ok e) :
+    ∃ g', contDel g c key = .ok g' ∧ cLinks g' c.node = (contEntries g c).filter (fun l => l != e) :=
+  hg.wf.contDel_plain hc hfl hget
+
+/-- **link lists: append** — a successful `append` leaves the list as the old entries without
+the appended entity, followed by it (so a first append puts it last and a re-append moves it to
+the end); entries of link lists are named by the id of their target -/
+theorem link_append_last {g g' : Graph} (hg : ReachableFresh g) {p : Path} {cn : String} {c : Cont} {key : Key}
+    (hc : openCont g p cn = some c) (hres : contAppend g c key = .ok g') :
+    ∃ k id cg, g.entityId k = some id ∧ g'.child? c.owner.key cn = some cg ∧
+      g'.links cg = (contEntries g c).filter (fun l => l.1 != id) ++ [(id, k)] :=
+  hg.wf.contAppend_entries hc hres
+
+/-- **link lists: unlink** — `del list[key]` (key = name, id, position or the entity) removes the
+one entry named by the entity's id; the rest keep their order -/
+theorem link_unlink_keeps_rest {g g' : Graph} (hg : ReachableFresh g) {p : Path} {cn : String} {c : Cont}
+    {key : Key} (hc : openCont g p cn = some c)
+    (hfl : c.info.flavour = .link ∨ c.info.flavour = .sourceLink) (hres : contDel g c key = .ok g') :
+    ∃ id cg, c.node = some cg ∧ g'.links cg = (contEntries g c).filter (fun l => l.1 != id) :=
+  hg.wf.contDel_link hc hfl hres
+
+/-! ### duplicate names are refused by every create function -/
+
+/-- `File.create_section` -/
+theorem duplicate_refused_section_root (g : Graph) (name type : String) (k : Nat)
+    (hex : g.child? 0 "metadata" = some k) (hin : g.hasChild k name = true) :
+    createSection g [] name type = .error .duplicateName := by
+  have hbn : (getByName g (some k) name).isSome = true := by
+    rw [hasChild_eq, child?_eq] at hin
+    unfold getByName cLinks
+    cases hf : (g.links k).find? (fun l => l.1 == name) <;> simp_all
+  have : (getByIdOrName g (some k) name).isSome = true := by
+    unfold getByIdOrName
+    split
+    · split
+      · rfl
+      · exact hbn
+    · exact hbn
+  simp [createSection, openCont, resolve, ownerKindOf, rootLoc, containerInfo, contHas, hex, this]
+
+/-- `Section.create_section` -/
+theorem duplicate_refused_section (g : Graph) (p : Path) (o : Loc) (name type : String) (hp : p ≠ [])
+    (hr : resolve g rootLoc p = some o) (hk : kindOf g o.key = "section")
+    (hlegal : checkNameType name type = .ok ())
+    (hin : (g.ensureGroup o.key "sections").1.hasChild (g.ensureGroup o.key "sections").2 name = true) :
+    createSection g p name type = .error .duplicateName := by
+  cases p with
+  | nil => exact absurd rfl hp
+  | cons s ps =>
+    simp only [createSection, hr, hk, bne_self_eq_false, Bool.false_eq_true, ↓reduceIte, hlegal]
+    simp [hin]
+
+/-- `Block.create_group / create_data_array / create_tag / create_multi_tag / create_source`,
+`Source.create_source` -/
+theorem duplicate_refused_in (g : Graph) (p : Path) (o : Loc) (what name type cname kind : String)
+    (extra : Option Nat) (c : Nat)
+    (hr : resolve g rootLoc p = some o) (hspec : createSpec (kindOf g o.key) what = some (cname, kind))
+    (hlegal : checkNameType name type = .ok ())
+    (hc : g.child? o.key cname = some c) (hin : g.hasChild c name = true) :
+    createIn g p what name type extra = .error .duplicateName := by
+  unfold createIn
+  simp only [hr]
+  change (match createSpec (kindOf g o.key) what with
+      | none => Except.error Err.attributeError
+      | some (cname, kind) => _) = _
+  simp only [hspec, hlegal]
+  have e0 : (if (kindOf g o.key == "source") = true then (g.ensureGroup o.key cname).1 else g) = g := by
+    split
+    · rw [ensureGroup_of_some hc]
+    · rfl
+  rw [e0]
+  simp [hc, hin]
+
+/-- `Section.create_property` -/
+theorem duplicate_refused_property (g : Graph) (p : Path) (o : Loc) (name : String) (hn : name ≠ "")
+    (hr : resolve g rootLoc p = some o) (hk : kindOf g o.key = "section")
+    (hin : (g.ensureGroup o.key "properties").1.hasChild (g.ensureGroup o.key "properties").2 name = true) :
+    createProperty g p name = .error .duplicateName := by
+  unfold createProperty
+  simp only [hr, hk, bne_self_eq_false, Bool.false_eq_true, ↓reduceIte]
+  have hn' : (name != "") = true := by simpa using hn
+  simp [hn', hin]
+
 /-! Non-vacuity: a concrete reachable state with two blocks, looked up in every way. -/
 def demo : Graph := run init [.createBlock "b" "t", .createBlock "0f0f0f0f0f0f0f0f0f0f0f0f0f0f0f0f" "t"]
 
@@ -63,5 +207,16 @@ example : (openCont demo [] "data").map (fun c => (contGet demo c (.str "0f0f0f0
     some (some "0f0f0f0f0f0f0f0f0f0f0f0f0f0f0f0f") := by decide +kernel
 example : (match createBlock demo "b" "t" with | .error .duplicateName => true | _ => false) = true := by
   decide +kernel
+
+/-- the demo state is reachable by a history that respects id freshness, so every theorem above
+applies to it (the hypotheses are satisfiable) -/
+theorem demo_reachable : ReachableFresh demo :=
+  ⟨[.createBlock "b" "t", .createBlock "0f0f0f0f0f0f0f0f0f0f0f0f0f0f0f0f" "t"],
+    ⟨fun n hn m _ => by cases hn; exact notId_of_head (by decide) m,
+     fun n hn m _ => by cases hn; exact notId_of_head (by decide) m, trivial⟩, rfl⟩
+
+example : WF demo := reachable_wf demo_reachable
+example : ∃ c, openCont demo [] "data" = some c ∧ isPlainLike c.info.flavour = true ∧ contLen demo c = 2 ∧
+    c.info.flavour = .plain := by decide +kernel
 
 end Nix.C03
